@@ -10,6 +10,7 @@ CONSTANTS
   FullLevels = {}
   MedLevels = {1,2,3}
   TinyLevels = {}
+  AliasLevels = {}
   XOffs = {}
   XLens = {}
   MaxLen = 9
